@@ -172,6 +172,7 @@ class Obj:
         self.items = items          # OrderedDict for the CaselessDict family
         self.uid = next(Obj._ids)
         self.strval = None          # for str subclasses
+        self.listval = None         # for list subclasses
 
     def __repr__(self):
         n = self.cls.name if self.cls else "object"
@@ -362,7 +363,15 @@ class Interp:
         n["repr"] = Native("repr", lambda i, a, k: "<repr>")
         n["any"] = Native("any", lambda i, a, k: any(self.truth(x) for x in self._as_list(a[0])))
         n["all"] = Native("all", lambda i, a, k: all(self.truth(x) for x in self._as_list(a[0])))
-        n["sorted"] = Native("sorted", lambda i, a, k: sorted(self._as_list(a[0])))
+        n["sorted"] = Native("sorted", self._sorted)
+        n["zip"] = Native("zip", lambda i, a, k: [tuple(t) for t in zip(*[self._as_list(x) for x in a])])
+        n["reversed"] = Native("reversed", lambda i, a, k: list(reversed(self._as_list(a[0]))))
+        n["bool"] = Native("bool", lambda i, a, k: self.truth(a[0]) if a else False)
+        n["map"] = Native("map", lambda i, a, k: [self.call(a[0], list(t), {})
+                                                for t in zip(*[self._as_list(x) for x in a[1:]])])
+        n["filter"] = Native("filter", lambda i, a, k: [
+            x for x in self._as_list(a[1])
+            if self.truth(x if a[0] is None else self.call(a[0], [x], {}))])
         n["enumerate"] = Native("enumerate", lambda i, a, k: list(enumerate(self._as_list(a[0]))))
         n["type"] = Native("type", self._type)
         n["property"] = Native("property", lambda i, a, k: PropertyVal(
@@ -528,9 +537,19 @@ class Interp:
                 raise
         return self.getattr(a[0], a[1])
 
+    def _sorted(self, i, a, k):
+        xs = self._as_list(a[0])
+        key = k.get("key")
+        rev = bool(k.get("reverse", False))
+        if key is None:
+            return sorted(xs, reverse=rev)
+        return sorted(xs, key=lambda x: self.call(key, [x], {}), reverse=rev)
+
     def _as_list(self, x):
         if isinstance(x, (list, tuple)):
             return list(x)
+        if isinstance(x, Obj) and x.listval is not None:
+            return list(x.listval)
         if isinstance(x, (set, frozenset)):
             return sorted(x, key=repr)
         if isinstance(x, dict):
@@ -560,6 +579,8 @@ class Interp:
                 return bool(v.items)
             if v.strval is not None:
                 return bool(v.strval)
+            if v.listval is not None:
+                return bool(v.listval)
             if "intval" in v.attrs:
                 return bool(v.attrs["intval"])
             return True
@@ -647,6 +668,14 @@ class Interp:
         if isinstance(b, Obj) and b.strval is not None:
             b = b.strval
         if isinstance(a, Obj) or isinstance(b, Obj):
+            for x, y in ((a, b), (b, a)):
+                if isinstance(x, Obj) and x.cls is not None:
+                    eqm = self.model.lookup_method(x.cls, "__eq__")
+                    if eqm is not None:
+                        r = self.call(Bound(Closure(eqm), x), [y], {})
+                        if isinstance(r, NativeObj) and r.name == "NotImplemented":
+                            continue
+                        return self.truth(r)
             if isinstance(a, Obj) and isinstance(b, Obj):
                 return a is b
             return False
@@ -742,7 +771,11 @@ class Interp:
         if isinstance(o, ClassVal):
             if name in ("__name__", "__qualname__"):
                 return o.ci.name
-            return self._class_attr(o.ci, name, None)
+            v = self._class_attr(o.ci, name, None)
+            if isinstance(v, Closure) and v.fi is not None and v.fi.cls is not None \
+                    and v.fi.kind == "class":
+                return Bound(v, o)
+            return v
         if isinstance(o, TypeTok):
             if name in ("__name__", "__qualname__"):
                 return o.name
@@ -761,14 +794,24 @@ class Interp:
             if name == "count":
                 return Native("count", lambda i, a, k, o=o: o.count(a[0]))
         if isinstance(o, (set, frozenset)):
-            if name == "add":
-                return Native("add", lambda i, a, k, o=o: o.add(a[0]))
+            if name in ("add", "discard", "remove", "update", "union", "difference",
+                        "intersection", "copy", "difference_update", "issubset", "clear"):
+                def setop(i, a, k, o=o, name=name):
+                    conv = [set(self._as_list(x)) if name not in ("add", "discard", "remove") else x
+                            for x in a]
+                    try:
+                        return getattr(o, name)(*conv)
+                    except KeyError as e:
+                        raise AbsRaise("KeyError", str(e))
+                return Native(name, setop)
         if isinstance(o, Closure) and name in ("__annotations__",):
             return {}
         if isinstance(o, Unknown):
             raise Unsupported(f"use of {o!r}")
         if isinstance(o, (int, float)):
             raise AbsRaise("AttributeError", f"int has no attribute {name}")
+        if isinstance(o, (bytes, str, tuple, set, frozenset)) and not hasattr(o, name):
+            raise AbsRaise("AttributeError", f"{type(o).__name__} has no attribute {name}")
         raise Unsupported(f"attribute {name} of {o!r}")
 
     def _dt_replace(self, o, a, k):
@@ -827,6 +870,8 @@ class Interp:
             return Native("insert", lambda i, a, k: o.insert(a[0], a[1]))
         if name == "copy":
             return Native("copy", lambda i, a, k: list(o))
+        if not hasattr(o, name):
+            raise AbsRaise("AttributeError", f"'list' object has no attribute {name!r}")
         raise Unsupported(f"list.{name}")
 
     def _str_method(self, o, name):
@@ -844,6 +889,8 @@ class Interp:
             return Native("split", lambda i, a, k: o.split(*a))
         if name == "replace":
             return Native("replace", lambda i, a, k: o.replace(*a))
+        if not hasattr(o, name):
+            raise AbsRaise("AttributeError", f"str has no attribute {name}")
         raise Unsupported(f"str.{name}")
 
     def _dict_method(self, o, name):
@@ -857,6 +904,8 @@ class Interp:
             return Native("values", lambda i, a, k: list(o.values()))
         if name == "update":
             return Native("update", lambda i, a, k: o.update(*a))
+        if not hasattr(o, name):
+            raise AbsRaise("AttributeError", f"'dict' object has no attribute {name!r}")
         raise Unsupported(f"dict.{name}")
 
     # -- repo objects
@@ -905,7 +954,13 @@ class Interp:
                 ov = self.model.lookup_method(o.cls, name)
                 if ov is None or ov.cls.qualname == "caselessdict.CaselessDict":
                     return nat
-        if o.strval is not None and name in ("lower", "upper", "startswith", "strip", "encode"):
+        if o.listval is not None and self.model.lookup_method(o.cls, name) is None \
+                and name in ("append", "extend", "insert", "pop", "index", "count", "remove",
+                             "sort", "reverse", "copy", "clear"):
+            return self._list_method(o.listval, name)
+        if o.strval is not None and name in ("lower", "upper", "startswith", "endswith", "strip",
+                                             "encode", "replace", "split") \
+                and self.model.lookup_method(o.cls, name) is None:
             return self._str_method(o.strval, name)
         v = self._class_attr(o.cls, name, o)
         if isinstance(v, PropertyVal):
@@ -950,8 +1005,6 @@ class Interp:
                 for kk, vv in k.items():
                     it[K(kk)] = vv
             return Native("update", upd)
-        if name == "sorted_keys":
-            return Native("sorted_keys", lambda i, a, k: sorted(it.keys()))
         if name == "copy":
             def cp(i, a, k):
                 n = Obj(o.cls, OrderedDict(it))
@@ -1102,6 +1155,15 @@ class Interp:
 
     # ---- arithmetic -------------------------------------------------------
     def binop(self, op, a, b):
+        if isinstance(a, (set, frozenset)) and isinstance(b, (set, frozenset)):
+            if isinstance(op, ast.Sub):
+                return a - b
+            if isinstance(op, ast.BitOr):
+                return a | b
+            if isinstance(op, ast.BitAnd):
+                return a & b
+            if isinstance(op, ast.BitXor):
+                return a ^ b
         if a is None or b is None:
             raise AbsRaise("TypeError", f"unsupported operand type(s): NoneType")
         if isinstance(op, ast.Add):
@@ -1253,6 +1315,9 @@ class Interp:
             return res
         if "str" in bases and args:
             o.strval = self._str(args[0])
+        if "list" in bases and self.model.lookup_method(ci, "__init__") is None:
+            o.listval = list(self._as_list(args[0])) if args else []
+            return o
         init = self.model.lookup_method(ci, "__init__")
         if init is not None and init.cls.qualname != "caselessdict.CaselessDict":
             self._call_closure(Closure(init), [o] + args, kwargs)
